@@ -18,7 +18,7 @@ def canonStats (st : StatsObs) : StatsObs :=
 def bpeTrainD (op : String) (args : List Nat) : Option String :=
   match op with
   | "trainbpe" => some <| match runP (do
-        let n ← pNat; let _norm ← pBool; let _threads ← pNat; let _lines ← pList pNats; let words ← pList (pPair pNats pNat); let t ← pList (pPair pNats pNat); pure (n, words, t)) args with
+        let n ← pNat; let _norm ← pBool; let _threads ← pNat; let _nfiles ← pNat; let _maxLines ← pNat; let _lines ← pList pNats; let words ← pList (pPair pNats pNat); let t ← pList (pPair pNats pNat); pure (n, words, t)) args with
       | some (n, words, t) =>
         if greedyTable words n t then (if wfTable t then "accept" else "refuse not-well-formed") else "refuse not-greedy"
       | none => reject
